@@ -58,8 +58,15 @@ def topt(x):
     return "N" if x is None else "S " + hx(x)
 
 
-def run_driver(lines, chunk=20000):
+def driver_path(unit=None):
+    if os.environ.get("VERIF_DRIVER"):
+        return os.environ["VERIF_DRIVER"]
+    return os.path.join(COQDIR, "ocaml", "driver_" + unit if unit else "driver")
+
+
+def run_driver(lines, chunk=20000, unit=None):
     """feed lines to the extracted model; returns list of output lines (token lists)."""
+    DRIVER = driver_path(unit)
     if not os.path.exists(DRIVER):
         raise RuntimeError("driver not built: " + DRIVER)
     out = []
